@@ -106,7 +106,7 @@ def rand_layout(rng, W, hostile=0.5, key_pool=None, expires=None):
     for n in names:
         steps.append(scen.mk_step(
             n, rng.choice([0, 1, 1, 2, 3, 2 ** 32 - 1]),
-            [W.kid(k) for k in rng.sample(key_pool, rng.randrange(0, 3))],
+            [(W.kid(k).upper() if rng.random() < 0.08 else W.kid(k)) for k in rng.sample(key_pool, rng.randrange(0, 3))],
             [hs(rng, hostile) for _ in range(rng.choice([0, 1, 2]))],
             [rand_rule(rng, names or ("s0",), hostile * 0.4) for _ in range(rng.choice([0, 1, 2]))],
             [rand_rule(rng, names or ("s0",), hostile * 0.4) for _ in range(rng.choice([0, 1, 2]))]))
